@@ -347,6 +347,13 @@ class Runner:
             if o is None or "diags" not in o:
                 self.stats["programs_dropped_reference_unusable"] += 1
                 continue
+            if "VERIF_PREDECESSOR_ONLY = True" in self.programs[pid]:
+                # programs that exhaust the recursion limit: their own diagnostics legitimately depend
+                # on how warm the caches are (a hit is a shallower call chain than a miss), so they are
+                # never compared - but they stay in the histories, where the exceptions they provoke
+                # exercise the checker's error paths
+                self.stats["programs_predecessor_only"] += 1
+                continue
             usable.add(pid)
         self.usable = usable
         self.ref = ref
@@ -405,7 +412,7 @@ class Runner:
                         self.stats["invariant_leads"] += 1
                     state_keys.add((pid, job.hash, job.layout, prefix.hexdigest()[:16]))
                     expect = base.get(pid)
-                    if expect is not None and "diags" in expect:
+                    if pid in usable and expect is not None and "diags" in expect:
                         d = oracle.compare(expect, e["obs"])
                         if d:
                             leads.append({"pid": pid, "mechanism": "history", "hash": job.hash, "layout": job.layout, "diff": d,
@@ -437,7 +444,7 @@ class Runner:
                 if mode == "each":
                     continue
                 for pid, o in merged.items():
-                    if pid == "<other>":
+                    if pid == "<other>" or pid not in usable:
                         continue
                     if pid in each:
                         d = oracle.compare(each[pid], o)
